@@ -646,6 +646,7 @@ class Hdf5Storage(Storage):
         if name in self.h5gr:
             raise ValueError('Subcontainer with that name already exists')
         res = Hdf5Storage(self.h5gr.create_group(name))
+        self._subcontainers.append(res)
         return res
 
     def load(self, key):
